@@ -422,6 +422,12 @@ func (f *Fetcher) Get(k eval.VariableKey, s string) (eval.Value, error) {
 			f.Log.KeyErrs = append(f.Log.KeyErrs, fmt.Sprintf("Get(%d,%q): registered key is %d", k, s, want))
 		}
 	}
+	if f.Avail != nil && !f.Avail[s] {
+		// like the repository's map fetcher: a variable that is not cached cannot be fetched.
+		// TryEval must have asked Cached first and never get here.
+		f.Log.KeyErrs = append(f.Log.KeyErrs, fmt.Sprintf("Get(%q) although Cached reports it unavailable", s))
+		return nil, ErrUnavailable
+	}
 	if err, ok := f.Fail[s]; ok {
 		return nil, err
 	}
@@ -431,6 +437,10 @@ func (f *Fetcher) Get(k eval.VariableKey, s string) (eval.Value, error) {
 	}
 	return v, nil
 }
+
+// ErrUnavailable is returned by the instrumented fetcher when Get is called for a
+// variable it reports as not cached.
+var ErrUnavailable = errors.New("harness: Get of a variable that is not available")
 
 func (f *Fetcher) Set(k eval.VariableKey, s string, v eval.Value) error {
 	return errors.New("harness fetcher is read-only")
